@@ -165,12 +165,15 @@ def mk_calls(rng, rss, cgs):
     return {k: v for k, v in calls.items() if v}
 
 
-def mk_scenario(rng):
+def mk_scenario(rng, calm=None, nticks=None):
     rss = mk_rulesets(rng)
     ticks = []
     prev = {}
-    calm = rng.random() < 0.3
-    for _ in range(rng.randint(3, 10)):
+    if calm is None:
+        calm = rng.random() < 0.3
+    if nticks is None:
+        nticks = rng.randint(3, 10)
+    for _ in range(nticks):
         cur = mk_world(rng, prev, rss, calm)
         cgs = world_entries(cur, rss)
         ticks.append({"gap": rng.choice([S, 5 * S, 5 * S, 5 * S, 2 * S, 10 * S, 15 * S, 0, 3 * S + S // 2]),
